@@ -992,41 +992,74 @@ def _gen_threads(rng, restricted):
     conn = [False] * n
     inget = [False] * n
     pend = [0] * n
+    mid = [False] * n
+    pos = [0] * n
     k = 0
     evs = []
+    stepwise = rng.random() < 0.6
+    link = [True]
+
+    def lost():
+        link[0] = False
+        for j in range(n):
+            if conn[j] or mid[j]:
+                conn[j] = False
+                pend[j] += 1
     for _ in range(rng.randrange(6, 40)):
         r = rng.random()
         i = rng.randrange(n)
-        if r < 0.28:
+        if mid[i] and rng.random() < 0.6:
+            # drive the connect() in progress: next configuration, a loss inside its send, or the end
+            r2 = rng.random()
+            if pos[i] < len(loggers[i]):
+                if r2 < 0.3:
+                    evs.append(['cfglose', i])
+                    pos[i] += 1
+                    lost()
+                else:
+                    evs.append(['op', i, 'ccfg'])
+                    pos[i] += 1
+            else:
+                evs.append(['op', i, 'cend'])
+                mid[i] = False
+                conn[i] = True
+            continue
+        if r < 0.26:
             k += 1
             evs.append(['sample', rng.choice([0, 1, 2, 3, 3, 4] if rng.random() < 0.3 else
                                              [c for l in loggers for c in l]), k])
-        elif r < 0.48:
+        elif r < 0.46:
             if inget[i] and not restricted and rng.random() < 0.7:
                 evs.append(['op', i, 'get'])
             else:
                 evs.append(['op', i, 'next'])
                 if not inget[i] and conn[i]:
                     inget[i] = True
-        elif r < 0.70:
+        elif r < 0.68:
             evs.append(['op', i, 'get'])
-            inget[i] = False if inget[i] else inget[i]      # may stay blocked: the real run tells
         elif r < 0.80:
-            if restricted and pend[i]:
+            if restricted and (pend[i] or mid[i]):
                 continue
-            evs.append(['op', i, 'connect'])
-            conn[i] = True
-        elif r < 0.86:
-            if restricted and inget[i]:
+            if not link[0] and rng.random() < 0.8:
+                evs.append(['linkup'])
+                link[0] = True
+            if stepwise and rng.random() < 0.7:
+                evs.append(['op', i, 'cbegin'])
+                if not conn[i] and not mid[i]:
+                    mid[i], pos[i] = True, 0
+            else:
+                evs.append(['op', i, 'connect'])
+                if not mid[i]:
+                    conn[i] = True
+        elif r < 0.85:
+            if restricted and (inget[i] or mid[i]):
                 continue
             evs.append(['op', i, 'disconnect'])
-            conn[i] = False
+            if not mid[i]:
+                conn[i] = False
         elif r < 0.93:
             evs.append(['lostall'])
-            for j in range(n):
-                if conn[j]:
-                    conn[j] = False
-                    pend[j] += 1
+            lost()
         else:
             evs.append(['op', i, 'lost2'])
             pend[i] = max(0, pend[i] - 1)
@@ -1040,8 +1073,8 @@ def _gen_threads(rng, restricted):
 
 def _check_threads(case):
     """the clause text on the real SyncLogger with real threads: every logger yields the samples of its own
-    blocks decoded between its connect and disconnect, each once, in order, and then stops; it is never
-    left blocked once a link loss has completed"""
+    blocks decoded between its connect and disconnect, each once, in order, and then stops; once a link loss
+    has completed -- also one that happened at any point of connect() -- it is never left blocked"""
     st = _threads()
     loggers = case['loggers']
     n = len(loggers)
@@ -1050,6 +1083,13 @@ def _check_threads(case):
         conn = [False] * n
         busy = [False] * n          # consumer inside get()
         pend = [0] * n
+        mid = [False] * n           # the user thread is inside connect()
+        pos = [0] * n
+        hears = [False] * n         # from the start of connect() to disconnect: a link loss reaches the logger
+        dreg = [set() for _ in range(n)]
+        link = [True]
+        known = set()               # configurations accepted by add_config at some time
+        blk = set()                 # configurations in log_blocks (accepted since the last log reset)
         q = [[] for _ in range(n)]  # what the queue of logger i must hold: sample numbers, 'D' = sentinel
 
         def result(i, code, what):
@@ -1066,36 +1106,98 @@ def _check_threads(case):
             if code != want:
                 raise _Fail('sync_threads_wrong_yield', 'StopIteration' if head == 'D' else head,
                             {1: 'StopIteration'}.get(code, code - 10 if code >= 10 else code), what)
+
+        def lost():
+            link[0] = False
+            for i in range(n):
+                if hears[i]:
+                    if conn[i]:
+                        conn[i] = False
+                        hears[i] = False
+                        dreg[i] = set()
+                    pend[i] += 1
+
+        def turn(i, c):
+            """one turn of the loop of connect(): False = start() raises (never accepted, link down)"""
+            dreg[i].add(c)
+            if link[0]:
+                known.add(c)
+                blk.add(c)
+            return c in known
+
+        def cfg_step(i, code):
+            if turn(i, loggers[i][pos[i]]):
+                pos[i] += 1
+                if code not in (0, None):
+                    raise _Fail('sync_threads_connect_failed', 0, code)
+            else:
+                mid[i] = False            # connect() raised AttributeError: not connected
+                if code not in (5, None):
+                    raise _Fail('sync_threads_connect_failed', 'AttributeError', code)
         for e in list(case['script']):
             k = e[0]
             if k == 'sample':
                 run.apply(e)
                 for i in range(n):
-                    if conn[i] and e[1] in loggers[i]:
+                    if e[1] in dreg[i] and e[1] in blk:
                         q[i].append(e[2])
                 continue
             if k == 'lostall':
                 run.apply(e)
-                for i in range(n):
-                    if conn[i]:
-                        conn[i] = False
-                        pend[i] += 1
+                lost()
+                continue
+            if k == 'linkup':
+                run.apply(e)
+                if not link[0]:
+                    blk.clear()          # new session: the log reset removed every block
+                link[0] = True
+                continue
+            if k == 'cfglose':
+                i = e[1]
+                code = run.apply(e)[0]
+                if mid[i] and pos[i] < len(loggers[i]):
+                    cfg_step(i, code)
+                lost()
                 continue
             i, op = e[1], e[2]
-            if case.get('restricted') and ((op == 'disconnect' and busy[i]) or (op == 'connect' and pend[i])):
+            if case.get('restricted') and ((op == 'disconnect' and busy[i]) or
+                                           (op in ('connect', 'cbegin') and pend[i])):
                 continue                  # outside the clause: see design.d/C05.md (observations)
+            if mid[i] and op in ('connect', 'disconnect', 'cbegin'):
+                continue                  # the user thread is busy
             code = run.apply(e)[0]
-            if op == 'connect':
+            if op in ('connect', 'cbegin'):
                 if conn[i]:
                     if code != 3:
                         raise _Fail('sync_threads_connect_twice', 'raises', code)
                 else:
-                    if code != 0:
-                        raise _Fail('sync_threads_connect_failed', 0, code)
-                    conn[i] = True
                     q[i] = []
+                    hears[i] = True
+                    if op == 'connect':
+                        ok = True
+                        for c in loggers[i]:
+                            if not turn(i, c):
+                                ok = False
+                                break
+                        if code != (0 if ok else 5):
+                            raise _Fail('sync_threads_connect_failed', 0 if ok else 'AttributeError', code)
+                        conn[i] = ok
+                    else:
+                        if code != 0:
+                            raise _Fail('sync_threads_connect_failed', 0, code)
+                        mid[i], pos[i] = True, 0
+            elif op == 'ccfg':
+                if mid[i] and pos[i] < len(loggers[i]):
+                    cfg_step(i, code)
+            elif op == 'cend':
+                if mid[i] and pos[i] == len(loggers[i]):
+                    mid[i] = False
+                    conn[i] = True
             elif op == 'disconnect':
-                conn[i] = False
+                if conn[i]:
+                    conn[i] = False
+                    hears[i] = False
+                    dreg[i] = set()
             elif op == 'lost2':
                 if pend[i]:
                     pend[i] -= 1
@@ -1113,21 +1215,36 @@ def _check_threads(case):
             elif op == 'get':
                 if busy[i]:
                     result(i, code, 'get() of logger %d' % i)
-        # the end: complete the link losses; every consumer must come to an end
+        # the end: finish the connects and the link losses; every consumer whose session has ended (or that
+        # has a sentinel queued) must come to StopIteration
         if case.get('restricted'):
             for i in range(n):
+                while mid[i] and pos[i] < len(loggers[i]):
+                    cfg_step(i, run.apply(['op', i, 'ccfg'])[0])
+                if mid[i]:
+                    run.apply(['op', i, 'cend'])
+                    mid[i] = False
+                    conn[i] = True
                 while pend[i]:
                     run.apply(['op', i, 'lost2'])
                     pend[i] -= 1
                     q[i].append('D')
-                if not conn[i]:
-                    if busy[i]:
-                        if not q[i]:
-                            continue      # only after an explicit disconnect, which `restricted` excludes while busy
-                        result(i, run.apply(['op', i, 'get'])[0], 'final get() of logger %d' % i)
-                    code = run.apply(['op', i, 'next'])[0]
-                    if code != 1:
-                        raise _Fail('sync_threads_not_stopped', 'StopIteration', code, 'after the session ended')
+                for _ in range(len(q[i]) + 2):
+                    if not busy[i]:
+                        code = run.apply(['op', i, 'next'])[0]
+                        if not conn[i]:
+                            if code != 1:
+                                raise _Fail('sync_threads_not_stopped', 'StopIteration', code, 'after the session ended')
+                            break
+                        if code != 2:
+                            raise _Fail('sync_threads_wrong_yield', 'enters get()', code)
+                        busy[i] = True
+                    if not q[i]:
+                        break             # still connected, nothing delivered: waiting is right
+                    was_d = q[i][0] == 'D'
+                    result(i, run.apply(['op', i, 'get'])[0], 'final get() of logger %d' % i)
+                    if was_d:
+                        break
     finally:
         run.close()
 
@@ -1284,7 +1401,9 @@ PROVED = ('Over the model: add_config accepts iff names in TOC, 1<=int(ms/10)<=2
           '(F05c repaired), so a re-added block is created again; protocol V1 creation message; SyncLogger session is '
           'FIFO, at-most-once, starts empty (F05d repaired) and stops at the disconnect; under threads (all interleavings of '
           'dispatcher, user and consumer steps, several loggers): yields a prefix of the own samples delivered in the session, '
-          'nothing foreign or from an earlier session, and terminates after a completed link loss.')
+          'nothing foreign or from an earlier session, and terminates after a completed link loss -- also a loss at any '
+          'point of connect() (step-by-step connect, loss between steps or inside a send); the late-registration variant '
+          'of connect() is refuted.')
 NOT_PROVED = ('Refuted on the unchanged code and kept as a known finding: raw-memory variables (add_memory) make create() '
               'raise TypeError (F05a; why it is not repaired: findings/C05.json why_not_fixed).  Not covered: protocol V1 has '
               'its theorem but no room test exists in the code (more than 14 variables exceed 30 bytes); append '
